@@ -3,10 +3,11 @@ CONSTANTS
   ElemVals = {0, 1, 2}
 INIT Init
 NEXT Next
-VIEW StateView
 CHECK_DEADLOCK FALSE
 INVARIANT InvBounded
 INVARIANT InvLastStored
 INVARIANT InvFill
 INVARIANT InvClear
 INVARIANT InvOrder
+INVARIANT InvAppend
+INVARIANT InvIndependent
